@@ -73,11 +73,44 @@ func famParse(c *Ctx, cfg *Cfg, n int, fields []int, cmpErr bool, fam string, ea
 	})
 }
 
+// famParseSpec: WPT + generated (input, base) pairs; the implementation against the model (all
+// observables) AND against the extracted Spec (the standard's result on the ten API getters)
+func famParseSpec(c *Ctx, n int) {
+	wpt := loadWPT()
+	rng := NewRng(c.Seed)
+	c.Pool.RunBoth(len(wpt)+n, func(d, sd *Driver, i int) {
+		var base *string
+		var input string
+		if i < len(wpt) {
+			input, base = wpt[i].Input, wpt[i].Base
+		} else {
+			r := rng.Fork(i)
+			switch r.Intn(6) {
+			case 0, 1:
+				input = r.anyInput()
+			case 2, 3:
+				input = r.relRef()
+				base = sp(r.base())
+			case 4:
+				input = r.hostile()
+				if r.Chance(1, 2) {
+					base = sp(r.base())
+				}
+			default:
+				input = r.anyInput()
+				base = sp(r.base())
+			}
+		}
+		io := c.cmpParse(d, defaultCfg, base, input, allFields, true, "parse", i)
+		c.checkAgainstSpec(sd, base, input, io, "parse", i)
+	})
+}
+
 func init() {
 	props["C01"] = &propDef{
 		run: func(c *Ctx) {
-			famParse(c, defaultCfg, 300000*c.Scale, allFields, true, "parse", nil)
+			famParseSpec(c, 120000*c.Scale)
 		},
-		rule: "WPT inputs + grammar-directed random inputs with and without base; distinct = distinct (cfg, base, input); non-trivial = got past the scheme state",
+		rule: "the 820 WPT vectors + grammar-directed, mutated and hostile generated inputs with and without base; each compared (a) between the implementation and the Coq model on all 20 observables incl. error type and (b) between the implementation and the extracted Spec transcription of the standard on the ten API getters and success/failure; distinct = distinct (base, input); non-trivial = got past the scheme state",
 	}
 }
